@@ -45,6 +45,8 @@ def family(b, ks, vals=True, clauses=True):
         prog += [["sv", "sat_valuations", "$b"], ["isv", "into_sat_valuations", "$b"]]
     for k in ks:
         prog.append(["ob%d" % k, "owned_back", "$b", str(k)])
+    if vals and clauses:
+        prog.append(["end", "iter_after_end", "$b"])
     return prog
 
 
@@ -197,6 +199,19 @@ def oracle_clause_iter(cl, nv, items):
 _last = {}
 
 
+def count_paths(nodes):
+    """number of root-to-1 paths of a raw array"""
+    if len(nodes) == 1:
+        return 0
+    memo = {0: 0, 1: 1}
+
+    def go(p):
+        if p not in memo:
+            memo[p] = go(nodes[p][1]) + go(nodes[p][2])
+        return memo[p]
+    return go(len(nodes) - 1)
+
+
 def judge(st, V):
     cid, call, impl, model, aux = st
     op = call[0]
@@ -207,6 +222,22 @@ def judge(st, V):
     V.count("op:" + op)
     if impl == "SKIP" or not operands_wf(call):
         V.skipped += 1
+        return
+    if op == "iter_after_end":
+        # every iterator, once exhausted, keeps answering None; the counts are those of the enumerations above
+        machinery_guard(st)
+        nodes = bdd_nodes(call[1])
+        want = None
+        if is_canonical(nodes)[0] and nodes[0][0] <= 16:
+            nsat = raw_count(nodes)
+            npaths = count_paths(nodes)
+            want = ["L"] + [["P", str(n), "T"] for n in (nsat, npaths, nsat, npaths)]
+        if impl != model or (want is not None and impl != want):
+            V.violations.append(violation(PID, st, "an exhausted iterator yields again, or the number of items differs from the enumeration",
+                                          oracle={"expected": sx_str(want) if want else None, "observed": sx_str(impl)},
+                                          confirmed=(want is not None and impl != want), relation="(count, None after the end) x 4"))
+        elif len(nodes) >= 3:
+            V.nontrivial.add(key_of(call))
         return
     # ---------------- clause iterator
     if op == "valuations_empty":
